@@ -788,7 +788,14 @@ class TableRow(BlockToken):
     def __init__(self, line, row_align=None, line_number=None):
         self.row_align = row_align or [None]
         self.line_number = line_number
-        cells = filter(None, self.split_pattern.split(line.strip()))
+        # the outer pipes do not separate cells; every other unescaped pipe does,
+        # also between two empty cells
+        line = line.strip()
+        if line.startswith('|'):
+            line = line[1:]
+        if line.endswith('|') and not line.endswith('\\|'):
+            line = line[:-1]
+        cells = self.split_pattern.split(line)
         self.children = [TableCell(self.escaped_pipe_pattern.sub('\\1|', cell.strip()) if cell else '', align, line_number)
                          for cell, align in zip_longest(cells, self.row_align)]
 
